@@ -168,10 +168,16 @@ def unit_symmetrize(tier):
             return [('one reshape (bonds x operations)', z3.BoolVal(False))]
         uq, ur, fl, AB = list(mg.values())[0]
         t, b, k, j = z3.Ints('pt pb pk pj')
+        # the statement is about the SET of images, one per operation; for a group of orthogonal operations the inverse of an operation is its
+        # transpose and is in the group, so 'row (b,k) is v R_k' and 'row (b,k) is R_k v' both give exactly the orbit - either convention is accepted
+        # (the first form demanded alone was more than the property states)
         img = lambda jj: vf(t, b, 0) * sf(0, jj, k) + vf(t, b, 1) * sf(1, jj, k) + vf(t, b, 2) * sf(2, jj, k)  # noqa: E731
+        imgT = lambda jj: vf(t, b, 0) * sf(jj, 0, k) + vf(t, b, 1) * sf(jj, 1, k) + vf(t, b, 2) * sf(jj, 2, k)  # noqa: E731
+        rng_ = z3.And(t >= 0, t < T, b >= 0, b < B, k >= 0, k < K)
         return [('one image per (vector, operation): shape (T, bonds*ops, 3)', z3.And(w.shape[0] == T, to_z3(w.shape[1]) == to_z3(AB), w.shape[2] == 3)),
-                ('image of vector b under operation k at row (b,k)', z3.ForAll([t, b, k], z3.Implies(
-                    z3.And(t >= 0, t < T, b >= 0, b < B, k >= 0, k < K), z3.And(*[w.at(t, fl(b, k), jj) == img(jj) for jj in range(3)])))), _frame(st)]
+                ('image of vector b under operation k (or, throughout, under its transpose = inverse) at row (b,k)', z3.Or(
+                    z3.ForAll([t, b, k], z3.Implies(rng_, z3.And(*[w.at(t, fl(b, k), jj) == img(jj) for jj in range(3)]))),
+                    z3.ForAll([t, b, k], z3.Implies(rng_, z3.And(*[w.at(t, fl(b, k), jj) == imgT(jj) for jj in range(3)]))))), _frame(st)]
     u.prove_function('gemdat.orientations', 'Orientations.symmetrize', setup, post, raises=(),
                      replay={'fn': 'verif.props.c18:replay_orient', 'sizes': lambda st: [], 'concretise': lambda m, st, ob: {'seed': 5}})
     return u
@@ -251,7 +257,7 @@ def unit_autocorr(tier):
 
 # ---------------------------------------------------------------------------------------------------------------
 
-def _tetra_system(seed, T=12, family=None):
+def _tetra_system(seed, T=12, family=None, n_centres=2):
     import numpy as np
     from pymatgen.core import Element
     from gemdat.trajectory import Trajectory
@@ -260,7 +266,7 @@ def _tetra_system(seed, T=12, family=None):
     lat = random_lattice(rng, scale=1.6, family=family)
     inv = np.linalg.inv(lat.matrix)
     tet = np.array([[1, 1, 1], [1, -1, -1], [-1, 1, -1], [-1, -1, 1]]) / np.sqrt(3) * 1.5
-    centres = np.array([[0.02, 0.5, 0.97], [0.55, 0.03, 0.48]])
+    centres = np.array([[0.02, 0.5, 0.97], [0.55, 0.03, 0.48], [0.3, 0.8, 0.25], [0.8, 0.45, 0.6]])[:n_centres]
     coords = []
     for t in range(T):
         frame = []
@@ -272,8 +278,8 @@ def _tetra_system(seed, T=12, family=None):
             for v in tet:
                 frame.append(c + (R @ v) @ inv)
         coords.append(frame)
-    coords = np.array(coords) + rng.integers(-1, 2, size=(T, 10, 1))
-    species = [Element('P')] * 2 + [Element('O')] * 8
+    coords = np.array(coords) + rng.integers(-1, 2, size=(T, 5 * n_centres, 1))
+    species = [Element('P')] * n_centres + [Element('O')] * (4 * n_centres)
     return Trajectory(species=species, coords=coords, lattice=lat.matrix, time_step=1e-15), lat
 
 
@@ -284,8 +290,19 @@ def replay_orient(inputs):
     from verif.native.synth import brute_mindist
     warnings.filterwarnings('ignore')
     seed = inputs['seed']
-    traj, lat = _tetra_system(seed, family=inputs.get('family'))
     bad = []
+    # fewer frames than molecules, and a single frame: every centre still has its four bonds at every frame
+    for T_, nc_ in ((2, 3), (1, 2), (3, 4)):
+        tj_, lt_ = _tetra_system(seed + 1, T=T_, family=inputs.get('family'), n_centres=nc_)
+        try:
+            vv = np.asarray(Orientations(tj_, 'P', 'O').vectors)
+            if vv.shape != (T_, 4 * nc_, 3):
+                bad.append(f'{T_} frames of {nc_} molecules: vectors of shape {vv.shape}, expected {(T_, 4 * nc_, 3)}')
+            elif np.abs(np.linalg.norm(vv, axis=-1) - 1.5).max() > 1e-6:
+                bad.append(f'{T_} frames of {nc_} molecules: bond lengths deviate from 1.5 A')
+        except Exception as e:
+            bad.append(f'{T_} frames of {nc_} molecules: Orientations raised {type(e).__name__}: {e}')
+    traj, lat = _tetra_system(seed, family=inputs.get('family'))
     try:
         o = Orientations(traj, 'P', 'O')
     except Exception as e:
